@@ -84,6 +84,31 @@ let do_kern args =
 (* ---- stream it:  I <k> <r> <L> <lastnull> <rows: c,c,c/c,c/...> <vals: hex.hex...> <esi> ... *)
 let parse_rows s = List.map (fun row -> if row = "" then [] else List.map (fun c -> nat_of_int (int_of_string c)) (String.split_on_char ',' row)) (String.split_on_char '/' s)
 let mask l = String.concat "" (List.map (fun b -> if b then "1" else "0") l)
+(* digest of the model's decoder state: the same canonical text as state_digest() of harness/drv_dec.c, FNV-1a 64.
+   The two ready-counters and the per-repair equation counts are not fields of the model: they are what the C's counters must
+   equal - the number of known source / repair columns, and the number of rows still holding the repair's column. *)
+let state_digest (s : (n list) st) : string =
+  let h = ref 0xcbf29ce484222325L in
+  let add str = String.iter (fun ch -> h := Int64.mul (Int64.logxor !h (Int64.of_int (Char.code ch))) 0x100000001b3L) str in
+  let r = int_of_nat s.r and n = int_of_nat s.n0 in
+  let nthd l i d = match List.nth_opt l i with Some x -> x | None -> d in
+  let rows = List.map (fun row -> List.map int_of_nat row) s.rws in
+  for row = 0 to r - 1 do
+    add (Printf.sprintf "u%d e%d c" (int_of_nat (nthd s.unk row O)) (int_of_nat (nthd s.enc row O)));
+    (match nthd s.ct row None with None -> add "-" | Some b -> List.iter (fun x -> add (Printf.sprintf "%02x" (int_of_n x))) b);
+    add " m";
+    List.iteri (fun i c -> add (if i = 0 then string_of_int c else "," ^ string_of_int c)) (nthd rows row []);
+    add ";"
+  done;
+  let known c = match nthd s.tab c None with Some _ -> true | None -> false in
+  let cnt lo hi = let c = ref 0 in for i = lo to hi - 1 do if known i then incr c done; !c in
+  add (Printf.sprintf "S%d R%d|" (cnt r n) (cnt 0 r));
+  for j = 0 to r - 1 do
+    add (Printf.sprintf "q%d," (List.fold_left (fun a row -> if List.mem j row then a + 1 else a) 0 rows))
+  done;
+  Printf.sprintf "%016Lx" !h
+let dig_tok l = "D" ^ String.concat "." (List.map (fun o -> match o with None -> "?" | Some o -> state_digest o.o_state) l)
+
 let do_it args =
   match args with
   | k :: r :: l :: ln :: rows :: vals :: esis ->
@@ -98,7 +123,7 @@ let do_it args =
     let fin = match !last with
       | None -> "V"
       | Some o -> "V" ^ String.concat "." (List.map (fun x -> match x with None -> "-" | Some b -> hex_of_bytes b) o.o_vals) in
-    String.concat " " (toks @ [fin])
+    String.concat " " (toks @ [fin; dig_tok res])
   | _ -> "BADREQ"
 
 
@@ -119,7 +144,7 @@ let do_ml args =
     let ftok = match fin with
       | None -> ["F-OUT-OF-FUEL"]
       | Some f -> [Printf.sprintf "F%d%s" (if f.fo_ok then 1 else 0) (obs_tok f.fo_obs); "V" ^ vals_tok f.fo_obs] in
-    String.concat " " (stoks @ ftok)
+    String.concat " " (stoks @ ftok @ [dig_tok (if api = "0" then steps else [last])])
   | _ -> "BADREQ"
 
 (* ---- stream api:  A <codec> <k> <r> <ses>/<call> ...   (ses: 0 e d b; calls as in coq/ApiArgs.v)  -> verdict per call: D 3 2 f *)
